@@ -37,8 +37,8 @@ inductive Verdict where
 /-- peer PAKE body classes -/
 inductive PakeKind where
   | good        -- has pake_v1 and SPAKE2 accepts the element
-  | noField     -- JSON without pake_v1  → got_pake_bad → scared
-  | invalid     -- SPAKE2 raises (reflection, malformed element) → exception
+  | noField     -- not JSON / not an object / no pake_v1 / not hex  → got_pake_bad → scared
+  | invalid     -- SPAKE2 raises (reflection, malformed element) → compute_key tells the Boss `scared`
   deriving DecidableEq, Repr, Inhabited, Hashable
 
 /-- exceptions -/
@@ -320,7 +320,8 @@ def exec (s : RunSt) (it : Item) (a : Arg) : StepR :=
     | .build_pake => .cont { s with ctl := { c with spStarted := true } } [(.M .add_message, { a with ph := .pake })]
     | .scared => .cont s [(.B .scared, a)]
     | .compute_key =>
-      if a.pake = .invalid then .fail s .spake        -- self._sp.finish(msg2) raises
+      -- `self._sp.finish(msg2)` raising (malformed or reflected element) is caught: `self._B.scared(); return`
+      if a.pake = .invalid then .cont s [(.B .scared, a)]
       else .cont s [(.B .got_key, a), (.M .add_message, { a with ph := .version }), (.R .got_key, a)]
   -- ---- Order outputs
   | .oO o => match o with
@@ -374,15 +375,15 @@ def exec (s : RunSt) (it : Item) (a : Arg) : StepR :=
     -- for (side, phase, body) in self._queue: self._deliver(...) ; then self._queue[:] = []
     -- an exception in a delivery leaves the queue as it was (the clear is never reached)
     -- whether a queued body decrypts is only decided now, under the key just computed: the PAKE
-    -- event's `good` flag says whether the queued messages open under it (they were sealed by the
-    -- same peer, so they all do or none does)
-    .cont s (c.orderQ.map (fun (ph, _) => (Item.receiveGot, { a with ph := ph, good := a.good })) ++ [(.orderClear, a)])
+    -- event's `good` flag says whether it came from the holder of our code; a queued message opens
+    -- under the new key iff it was sealed by that participant (its own flag) and the PAKE is theirs
+    .cont s (c.orderQ.map (fun (ph, g) => (Item.receiveGot, { a with ph := ph, good := g && a.good })) ++ [(.orderClear, a)])
   | .drainPending => .cont (emit s .drainAdds) []
   | .orderClear => .cont { s with ctl := { c with orderQ := [] } } []
   | .raise e => .fail s e
   | .obs o => .cont (emit s o) []
   | .receiveGot =>
-    if !c.rKey then .fail s (.assertion "self._key")
+    if !c.rKey then .cont s [(.R .got_message_bad, a)]   -- `if self._key is None: self.got_message_bad()`
     else if a.good then .cont s [(.R .got_message_good, a)] else .cont s [(.R .got_message_bad, a)]
   | .skGotPake =>
     match a.pake with
